@@ -45,6 +45,9 @@ mod wallet {
 }
 use wallet::encryption::{decrypt_private_key, encrypt_private_key};
 
+#[path = "parsers/extra.rs"]
+mod extra;
+
 const SALT: usize = 8; // only used by the independent framing/AEAD computation of the harness
 const NONCE: usize = 12;
 const EXPIRY: Duration = Duration::from_secs(3600);
@@ -403,7 +406,7 @@ fn exec(line: &str, tmp: &std::path::Path) -> (String, String) {
                     Err(_) => "err".into(),
                 }
             }
-            _ => "bad-op".into(),
+            other => extra::exec(other, tmp, &mut op).unwrap_or_else(|| "bad-op".into()),
         }
     }));
     let out = r.unwrap_or_else(|_| "panic".into());
@@ -451,7 +454,7 @@ fn oracle(line: &str, res: &str, out: &mut Out, tmp: &std::path::Path) {
                 Err(_) => out.oracle_fail("no-panic", line, "decrypt(encrypt(key)) panicked"),
             }
         }
-        _ => {}
+        other => extra::oracle(other, res, line, out),
     }
 }
 
@@ -831,6 +834,7 @@ fn generate(n: u64, rng: &mut Rng) -> Vec<String> {
             }
         }
     }
+    v.extend(extra::generate(rng, n));
     v
 }
 
@@ -868,6 +872,8 @@ fn main() {
     std::panic::set_hook(Box::new(|_| {}));
     install_formatting_subscriber();
     let tmp = tempfile::tempdir().expect("tempdir");
+    // dirs_next::data_dir(): the local EVM testnet CSV file is looked up under the scratch directory
+    std::env::set_var("XDG_DATA_HOME", tmp.path().join("data"));
     let lines: Vec<String> = if let Some(p) = &args.replay {
         common::read_lines(p)
     } else {
